@@ -86,4 +86,59 @@ theorem maxOf_lt (l : List Nat) (b : Nat) (hb : 0 < b) (h : ∀ x ∈ l, x < b) 
     have := h y (List.mem_cons_self ..)
     omega
 
+/-- inserting into a strictly ascending list whose elements are all larger puts the element in front -/
+theorem insertSorted_lt_all (x : Nat) (l : List Nat) (h : ∀ y ∈ l, x < y) : insertSorted x l = x :: l := by
+  cases l with
+  | nil => rfl
+  | cons y ys => simp [insertSorted, h y (by simp)]
+
+/-- a strictly ascending list is a fixed point of `uniqueSorted` (= `sorted(set(.))`) -/
+theorem uniqueSorted_of_sorted (l : List Nat) (h : l.Pairwise (· < ·)) : uniqueSorted l = l := by
+  induction l with
+  | nil => rfl
+  | cons x xs ih =>
+    have hx := List.pairwise_cons.1 h
+    show insertSorted x (uniqueSorted xs) = x :: xs
+    rw [ih hx.2]
+    exact insertSorted_lt_all x xs hx.1
+
+/-- `sorted(set(sorted(set(l)))) = sorted(set(l))`: the canonical normalisation is idempotent -/
+theorem uniqueSorted_idem (l : List Nat) : uniqueSorted (uniqueSorted l) = uniqueSorted l :=
+  uniqueSorted_of_sorted _ (uniqueSorted_sorted l)
+
+/-- two strictly increasing lists with the same members are equal -/
+theorem sorted_ext : ∀ (l₁ l₂ : List Nat), l₁.Pairwise (· < ·) → l₂.Pairwise (· < ·) →
+    (∀ x, x ∈ l₁ ↔ x ∈ l₂) → l₁ = l₂
+  | [], [], _, _, _ => rfl
+  | [], b :: bs, _, _, h => absurd ((h b).2 (List.mem_cons_self ..)) (by simp)
+  | a :: as, [], _, _, h => absurd ((h a).1 (List.mem_cons_self ..)) (by simp)
+  | a :: as, b :: bs, h₁, h₂, h => by
+    have ha := List.pairwise_cons.1 h₁
+    have hb := List.pairwise_cons.1 h₂
+    have hab : a = b := by
+      have h1 := (h a).1 (List.mem_cons_self ..)
+      have h2 := (h b).2 (List.mem_cons_self ..)
+      rcases List.mem_cons.1 h1 with e | e
+      · exact e
+      · rcases List.mem_cons.1 h2 with e' | e'
+        · exact e'.symm
+        · have := hb.1 a e
+          have := ha.1 b e'
+          omega
+    subst hab
+    congr 1
+    apply sorted_ext as bs ha.2 hb.2
+    intro x
+    constructor
+    · intro hx
+      rcases List.mem_cons.1 ((h x).1 (List.mem_cons_of_mem _ hx)) with e | e
+      · have := ha.1 x hx
+        omega
+      · exact e
+    · intro hx
+      rcases List.mem_cons.1 ((h x).2 (List.mem_cons_of_mem _ hx)) with e | e
+      · have := hb.1 x hx
+        omega
+      · exact e
+
 end Panoptica
